@@ -115,4 +115,39 @@ def dataSteps : List Step → List Step
   | .openOut _ :: rest => dataSteps rest
   | s :: rest => s :: dataSteps rest
 
+/-- steps that do not touch data: guards, logging effects, stream openings -/
+def Step.isPre : Step → Bool
+  | .guard _ => true
+  | .effect _ _ => true
+  | .openIn _ => true
+  | .openOut _ => true
+  | _ => false
+
+/-- a step without the descriptive callback strings of the embed rows (those are documentation of the branch, not
+    something the model interprets) -/
+def Step.skeleton : Step → Step
+  | .embed c p d _ _ _ => .embed c p d "" "" ""
+  | s => s
+
+/-- the data part of `run()`: everything from the first step that touches data -/
+def dataPart (steps : List Step) : List Step := (steps.dropWhile Step.isPre).map Step.skeleton
+
+/-- `read_data` is reached with only non-zero guards, logging effects and stream openings before it -/
+def reachesRead (f d : Expr) : List Step → Bool
+  | [] => false
+  | .guard g :: rest => g.exit != 0 && reachesRead f d rest
+  | .effect _ _ :: rest => reachesRead f d rest
+  | .openIn _ :: rest => reachesRead f d rest
+  | .openOut _ :: rest => reachesRead f d rest
+  | .readData c t f' d' :: _ => c == .lit .flag "true" && t == "input" && f' == f && d' == d
+  | _ => false
+
+/-- the D × N matrix the library receives, from the matrix F whose rows are the lines of the file -/
+def libraryInput {α} (transposeInputGiven : Bool) (F : DMat α) : DMat α :=
+  if transposeInputGiven then F else F.transpose
+
+/-- the matrix written to the output file, from the N × d embedding the library returns -/
+def writtenOutput {α} (transposeOutputGiven : Bool) (E : DMat α) : DMat α :=
+  if transposeOutputGiven then E.transpose else E
+
 end TapkeeVerif.Cli
